@@ -159,3 +159,7 @@ impl ast::Visit for Visitor<'_> {
         self.helper.exit_block();
     }
 }
+
+#[cfg(kani)]
+#[path = "/verif/contracts/kani/time_and_difficulty.rs"]
+pub(crate) mod verif_kani;
